@@ -397,6 +397,10 @@ func (g *Generator) GenerateEnum(enum *parser.Enum) error {
 		contents += g.generateCommentWithDeprecated(value.Comment, tab, value.Annotations)
 		contents += tab + fmt.Sprintf("%s(%d)%s\n", value.Name, value.Value, terminator)
 	}
+	if len(enum.Values) == 0 {
+		// The constant list still has to be terminated before the members.
+		contents += tab + ";\n"
+	}
 	contents += "\n"
 
 	contents += tab + "private final int value;\n\n"
